@@ -13,6 +13,28 @@ NOTE_COMMON = ("Trusted: Lean 4.33 kernel; axioms propext/Classical.choice/Quot.
                "double arithmetic is exact (float residue, DESIGN §3.1/§6).")
 
 CLAIMS = {
+    "C02": dict(
+        category="proof", design_ref="§7 C02",
+        technique="Lean 4 theorems relating the model of Graph.fromdict to a declarative statement of the fill-in rules (precedence, inference, symmetric expansion, stable sort, explicit=omitted spellings) + differential correspondence incl. an independent Python computation of the expected resolution",
+        text=("Kernel-checked theorems over the Model of Graph.fromdict: lookup_insertDefaults / lookup_update / epoch_default_precedence (explicit > deme-level > "
+              "top-level), resolveEpochs_iff / resolveEpochs_spec / resolveDeme_spec / addDemeHeader_spec (every resolved field is the one the declarative rules of "
+              "Spec/C02 prescribe: inherited sizes, inferred size functions, final end time 0, inferred start times and proportions), symmetric_expand / "
+              "resolve_symmetric_eq_asymmetric (a symmetric migration resolves exactly like its written-out ordered pairs with per-pair bounds), sortPulses_stable / "
+              "resolve_pulses_stable, explicit_default_epoch / null_epoch_field_omitted / hoist_epoch_default(_top) (equivalent spellings resolve identically). The Model "
+              "is tied to the code by exact comparison on 4 spellings x 4 routes (dict, Builder calls, YAML, JSON) of each generated model; every result is also compared "
+              "with the specification's resolution computed from the semantic model (never from the library), and with the same document whose equal sub-objects "
+              "are shared by reference (Python aliasing, YAML anchors) after the repair of defect F1."),
+        note=NOTE_COMMON + " Object sharing cannot be expressed in the pure Model (it receives the unfolded tree); int-vs-float spelling is erased in the Model and varied by the harness."),
+    "C16": dict(
+        category="proof", design_ref="§7 C16",
+        technique="Lean 4 theorems over a hand-written model of _stringify/_unstringify_infinities, _no_null_values and the load/dump pipelines (abstract text codec) + differential correspondence and strict re-parsing of the emitted JSON",
+        text=("Kernel-checked theorems stringify_no_inf (the dictionary handed to the JSON serialiser has no non-finite number outside metadata, both styles, EVERY graph), "
+              "unstringify_stringify / load_dump_json (+ loadAsdict/load/loadAll forms), unstringify_only_start_times / _at_start_time / _defaults / _keeps_other_strings "
+              "(the string is converted at exactly the four kinds of start-time position and nowhere else), nonull_iff (null reachable outside metadata through ANY nesting "
+              "<=> refusal, after the repair of defect F10), nonull_metadata_ignored, load_preserves_metadata, load_rejects_null for every loading entry point of the Model. "
+              "Model tied to the code by exact comparison of the serialiser's input dictionary and of _no_null_values/_unstringify_infinities; emitted JSON re-parsed with a "
+              "strict parser; 'Infinity' strings and nulls injected at every position through load, loads, load_asdict, loads_asdict, load_all in both formats."),
+        note=NOTE_COMMON + " ruamel.yaml/json are exercised, not modelled; a non-finite number inside user metadata makes json.dump(allow_nan=False) raise rather than emit a token."),
     "C01": dict(
         category="proof", design_ref="§7 C01, Appendix A.3",
         technique="Lean 4 theorem resolve_valid over a hand-written model of Graph.fromdict (fold invariants for the four loops) + corollaries for load/load_all/in_generations/rename_demes + differential correspondence; independent Lean validator run on the code's outputs",
